@@ -6,6 +6,7 @@ laws the property names *about that specification*, for every machine, input, en
 -/
 import AslModel.Interp
 import AslModel.Lite
+import Proofs.Lemmas.FuelMono
 namespace Asl.C01
 open Asl
 
@@ -313,6 +314,15 @@ theorem status_failed_iff_failed (env : Env) (fuel : Nat) (asl input ctx : Json)
   generalize runFrom env fuel states start input ctx 0 {} = r
   obtain ⟨r1, s1⟩ := r
   cases r1 <;> simp <;> decide
+
+/-- The outcome does not depend on the fuel: a run that ends with anything but fuel exhaustion gives
+exactly the same result (status, output, error, trace, oracle consumption) with every larger fuel.
+(Proved in Proofs/Lemmas/FuelMono.lean for all seven mutually recursive functions; proving it exposed
+a flaw of the first version of the model, where a fuel-exhausted sibling branch was swallowed by an
+earlier branch's failure.) -/
+theorem run_fuel_independent (env : Env) (n m : Nat) (h : n ≤ m) (asl input ctx : Json) :
+    (run env n asl input ctx).status ≠ S "FUEL" → run env m asl input ctx = run env n asl input ctx :=
+  Asl.run_fuel_independent env n m h asl input ctx
 
 /-! ### non-vacuity -/
 
